@@ -21,7 +21,7 @@ Lenient == Has(Sc, "errors") /\ Sc.errors = "warn"
 ErrInjected == Has(Sc, "err")
 
 St0 == [yielded |-> <<>>, served |-> {}, req |-> [oids |-> <<>>, kind |-> "none", maxrep |-> 0], nreq |-> 0,
-        asked |-> {}, unanswered |-> {}, revealed |-> {}, gnFault |-> FALSE, nonAdv |-> FALSE, faultAt |-> 0, stuckSeen |-> FALSE,
+        asked |-> {}, unanswered |-> {}, revealed |-> {}, gnFault |-> FALSE, nonAdv |-> FALSE, faultAt |-> 0, stuckSeen |-> FALSE, fragmented |-> FALSE,
         pred |-> <<>>, predEnd |-> FALSE, predY |-> <<>>, contFrom |-> <<>>, drift |-> 0]
 
 AsVbs(vbs) == [i \in DOMAIN vbs |-> [oid |-> vbs[i][1], eomv |-> vbs[i][2] = -1]]
@@ -62,6 +62,9 @@ OnResp(s, e) ==
   IN [st |-> [s EXCEPT !.revealed = @ \cup { got[k].oid : k \in { j \in DOMAIN got : ~got[j].eomv } },
                        !.served = @ \cup { <<e.vbs[k][1], e.vbs[k][2]>> : k \in DOMAIN e.vbs },
                        !.unanswered = { r.oids[k] : k \in { j \in DOMAIN r.oids : j > Len(e.vbs) } },
+                       \* a GETBULK response that ends inside its first repetition: the bulk fetcher completes the repetition with further
+                       \* requests (Walk.tla: `extra`); the round-by-round prediction below does not follow that inner loop
+                       !.fragmented = @ \/ (r.kind = "bulk" /\ Len(e.vbs) < n /\ \A k \in DOMAIN got : ~got[k].eomv),
                        !.gnFault = @ \/ gnF, !.nonAdv = @ \/ anyNA,
                        \* the walk cannot go on from where the agent put it: for a root that is not finished, the last OID received does not lie
                        \* beyond the one it was continued from (whichever fetcher is used)
@@ -128,7 +131,7 @@ Step == /\ l <= Len(Ev)
              /\ verdict' = IF verdict[1] = "ok" /\ v # "ok" THEN <<v, l>> ELSE verdict
         /\ l' = l + 1 /\ UNCHANGED tid
 Fin  == /\ l = Len(Ev) + 1
-        /\ PrintT(<<"VERDICT", tid, verdict[1], verdict[2], st.drift, st.nreq, Len(st.yielded)>>)
+        /\ PrintT(<<"VERDICT", tid, verdict[1], verdict[2], IF st.fragmented THEN 0 ELSE st.drift, st.nreq, Len(st.yielded)>>)
         /\ l' = l + 1 /\ UNCHANGED <<tid, st, verdict>>
 Next == Step \/ Fin
 Spec == Init /\ [][Next]_vars
